@@ -428,6 +428,13 @@ func Run(sc Scenario) (lines []any) {
 	return
 }
 
+// SharedCtx biases RandScenario towards waits that SHARE one context: every
+// subscription takes context 1, most are When / WhenNot / WhenTime /
+// WhenNextActive on few states, and the context is canceled at most once,
+// late - so that one binding of the context completes by a state match while
+// its siblings are still waiting when the context ends.
+var SharedCtx = false
+
 // RandScenario builds a random scenario.
 func RandScenario(r *rand.Rand, nops int, withSchema, withDispose bool) Scenario {
 	sc := Scenario{States: am.S{"A", "B", "C"}, Multi: am.S{"B"}}
@@ -451,7 +458,17 @@ func RandScenario(r *rand.Rand, nops int, withSchema, withDispose bool) Scenario
 			ctx = 1 + r.Intn(2)
 		}
 		argSets := []map[string]int{{}, {"a": 1}, {"a": 1, "b": 2}, {"b": 2}, {"a": 2}}
-		switch r.Intn(13) {
+		kind := r.Intn(13)
+		if SharedCtx {
+			ctx = 1
+			kind = []int{0, 0, 1, 2, 2, 3, 5, 6, 9, 4}[r.Intn(10)]
+			if kind <= 2 {
+				if r.Intn(3) > 0 {
+					return Op{Op: "sub", Kind: []string{"when", "when", "whennot"}[kind], States: am.S{one()}, Ctx: ctx}
+				}
+			}
+		}
+		switch kind {
 		case 9, 10:
 			return Op{Op: "sub", Kind: "whenargs", State: one(), Args: argSets[r.Intn(len(argSets))], Ctx: ctx}
 		case 11:
@@ -482,6 +499,12 @@ func RandScenario(r *rand.Rand, nops int, withSchema, withDispose bool) Scenario
 		switch x := r.Intn(10); {
 		case x < 4:
 			sc.Ops = append(sc.Ops, randSub())
+		case x < 5 && SharedCtx:
+			if i >= nops/2 {
+				sc.Ops = append(sc.Ops, Op{Op: "cancel", Ctx: 1})
+			} else {
+				sc.Ops = append(sc.Ops, randSub())
+			}
 		case x < 5:
 			sc.Ops = append(sc.Ops, Op{Op: "cancel", Ctx: 1 + r.Intn(2)})
 		case x == 5 && withSchema && !didSchema:
@@ -494,7 +517,7 @@ func RandScenario(r *rand.Rand, nops int, withSchema, withDispose bool) Scenario
 				tx.Args = []map[string]int{{"a": 1}, {"a": 1, "b": 2}, {"b": 2}, {"a": 2}, {"a": 1, "b": 2, "c": 3}}[r.Intn(5)]
 			}
 			for k := r.Intn(3); k > 0; k-- {
-				if r.Intn(4) == 0 {
+				if r.Intn(4) == 0 && !(SharedCtx && i < nops/2) {
 					tx.Window = append(tx.Window, Op{Op: "cancel", Ctx: 1 + r.Intn(2)})
 				} else {
 					tx.Window = append(tx.Window, randSub())
